@@ -167,6 +167,21 @@ pub fn universe(name: &str) -> Vec<Key> {
             }
             v
         }
+        // QUADS:<k> — k groups of four keys; group i shares the 6-bit prefix i (its own depth-1
+        // merkle page), the four keys differ in bits 6 and 7
+        n if n.starts_with("QUADS:") => {
+            let k: u8 = n[6..].parse().unwrap();
+            let mut v = vec![];
+            for i in 0..k {
+                for s in 0..4u8 {
+                    let mut a = [0u8; 32];
+                    a[0] = (i << 2) | s;
+                    a[31] = 1;
+                    v.push(a);
+                }
+            }
+            v
+        }
         _ => panic!("unknown universe {name}"),
     }
 }
